@@ -276,6 +276,8 @@ type Unit struct {
 	UseCands      bool
 	WantTerm      bool
 	specDefs      map[string]*specDef
+	FoldsUsed     map[string]*ContractFile // fold axioms this unit relied on (each proved as fold:<name>, in this unit's float mode)
+	NoFoldAxioms  bool                     // set while proving a fold lemma itself
 	qcount        int
 	recHeapProbe  map[string]types.Type
 	heapElemTypes map[string]types.Type
